@@ -1,8 +1,8 @@
 package main
 
 import (
-	"go/constant"
 	"fmt"
+	"go/constant"
 	"strings"
 
 	"golang.org/x/tools/go/ssa"
@@ -18,6 +18,7 @@ func init() {
 }
 
 func runC14(c *Ctx) {
+	defer checkRegisteredClaimsWin(c, "C14.R12", "(*"+pkgJWT+".IDTokenClaims).ToMap", "aud", "sub", "iss", "nonce", "at_hash", "c_hash", "exp", "auth_time")
 	defer checkParseSignatureFirst(c, "C14.R10")
 	defer checkConfigGetters(c, "C14.R8", "GetIDTokenLifespan", "GetIDTokenIssuer", "GetMinParameterEntropy", "GetAllowedPrompts")
 	defer checkStringInSlice(c, "C14.R9")
@@ -29,6 +30,7 @@ func runC14(c *Ctx) {
 	c14Prompt(c)
 	c14IssueFromStored(c)
 	c14StoredFormKeys(c)
+	c14RefreshResets(c)
 }
 
 func c14R1(c *Ctx) {
